@@ -724,4 +724,128 @@ theorem values_copyHeader (dst src : Hdr) (k : Str) (hn : src.keys.Nodup) :
     · have : x ≠ k := fun h => hk h.symm
       simp [hk, values_eq, get?_cons, this]
 
+/-! ## upgrade requests -/
+theorem isPrefixOfB_append (sub t : Str) : isPrefixOfB sub (sub ++ t) = true := by
+  induction sub with
+  | nil => simp [isPrefixOfB]
+  | cons a as ih => simp [isPrefixOfB, ih]
+
+theorem containsSub_of_prefix (sub l : Str) (h : isPrefixOfB sub l = true) : containsSub sub l = true := by
+  cases l with
+  | nil => unfold containsSub; exact h
+  | cons c r => unfold containsSub; simp [h]
+
+theorem containsSub_of_infix (sub l : Str) (h : sub <:+: l) : containsSub sub l = true := by
+  obtain ⟨s, t, rfl⟩ := h
+  induction s with
+  | nil =>
+    simp only [List.nil_append]
+    exact containsSub_of_prefix _ _ (isPrefixOfB_append sub t)
+  | cons c s ih =>
+    show containsSub sub (c :: (s ++ sub ++ t)) = true
+    unfold containsSub
+    rw [ih]; simp
+
+theorem splitOn_mem_infix (sep : UInt8) (v part : Str) (h : part ∈ splitOn sep v) : part <:+: v := by
+  induction v generalizing part with
+  | nil =>
+    simp [splitOn] at h
+    subst h; exact List.infix_refl _
+  | cons c r ih =>
+    by_cases hc : c = sep
+    · subst hc
+      rw [splitOn_cons_eq] at h
+      rcases List.mem_cons.mp h with h | h
+      · subst h; exact ⟨[], c :: r, by simp⟩
+      · exact List.IsInfix.trans (ih part h) (List.suffix_cons c r).isInfix
+    · cases hs : splitOn sep r with
+      | nil =>
+        -- splitOn never returns []
+        have : splitOn sep r ≠ [] := by
+          cases r with
+          | nil => simp [splitOn]
+          | cons d r' =>
+            rw [splitOn]; split
+            · simp
+            · split <;> simp
+        exact absurd hs this
+      | cons s ss =>
+        rw [splitOn_cons_ne sep c r s ss hc hs] at h
+        rcases List.mem_cons.mp h with h | h
+        · subst h
+          have hs' : s <:+: r := ih s (by rw [hs]; simp)
+          -- s is the FIRST piece: a prefix of r
+          have hpre : s <+: r := by
+            clear ih h hs'
+            induction r generalizing s ss with
+            | nil => simp [splitOn] at hs; obtain ⟨rfl, _⟩ := hs; exact List.prefix_refl _
+            | cons d r' ihr =>
+              by_cases hd : d = sep
+              · subst hd; rw [splitOn_cons_eq] at hs; injection hs with h1 _; subst h1; exact List.nil_prefix
+              · cases hs2 : splitOn sep r' with
+                | nil =>
+                  have : splitOn sep r' ≠ [] := by
+                    cases r' with
+                    | nil => simp [splitOn]
+                    | cons e r'' =>
+                      rw [splitOn]; split
+                      · simp
+                      · split <;> simp
+                  exact absurd hs2 this
+                | cons s2 ss2 =>
+                  rw [splitOn_cons_ne sep d r' s2 ss2 hd hs2] at hs
+                  injection hs with h1 _
+                  subst h1
+                  exact (List.cons_prefix_cons).mpr ⟨rfl, ihr s2 ss2 hs2⟩
+          exact ((List.cons_prefix_cons).mpr ⟨rfl, hpre⟩).isInfix
+        · exact List.IsInfix.trans (ih part (by rw [hs]; exact List.mem_cons_of_mem _ h)) (List.suffix_cons c r).isInfix
+
+theorem trimOWS_infix (s : Str) : trimOWS s <:+: s := by
+  unfold trimOWS
+  have h1 : (s.dropWhile isOWS) <:+ s := List.dropWhile_suffix _
+  have h2 : ((s.dropWhile isOWS).reverse.dropWhile isOWS) <:+ (s.dropWhile isOWS).reverse := List.dropWhile_suffix _
+  have h3 : ((s.dropWhile isOWS).reverse.dropWhile isOWS).reverse <+: (s.dropWhile isOWS) := by
+    have := List.reverse_prefix.mpr h2
+    simpa using this
+  exact List.IsInfix.trans h3.isInfix h1.isInfix
+
+set_option maxRecDepth 100000 in
+theorem lowerB_upgrade_bytes : ∀ a : UInt8,
+    (lowerB a = lowerB 85 → lowerB a = 117) ∧ (lowerB a = lowerB 112 → lowerB a = 112) ∧ (lowerB a = lowerB 103 → lowerB a = 103)
+    ∧ (lowerB a = lowerB 114 → lowerB a = 114) ∧ (lowerB a = lowerB 97 → lowerB a = 97) ∧ (lowerB a = lowerB 100 → lowerB a = 100)
+    ∧ (lowerB a = lowerB 101 → lowerB a = 101) := forall_byte (by decide)
+
+theorem tokenEqual_upgrade (t : Str) (h : tokenEqual t kUpgrade = true) : lowerStr t = kUpgradeLower := by
+  unfold tokenEqual at h
+  simp only [Bool.and_eq_true, decide_eq_true_eq] at h
+  obtain ⟨hl, hz⟩ := h
+  match t, hl with
+  | [a1, a2, a3, a4, a5, a6, a7], _ =>
+    simp only [kUpgrade, List.zip_cons_cons, List.zip_nil_right, List.all_cons, List.all_nil, Bool.and_true,
+      Bool.and_eq_true, decide_eq_true_eq] at hz
+    obtain ⟨⟨_, h1⟩, ⟨_, h2⟩, ⟨_, h3⟩, ⟨_, h4⟩, ⟨_, h5⟩, ⟨_, h6⟩, ⟨_, h7⟩⟩ := hz
+    simp only [lowerStr, kUpgradeLower, List.map_cons, List.map_nil]
+    rw [(lowerB_upgrade_bytes a1).1 h1, (lowerB_upgrade_bytes a2).2.1 h2, (lowerB_upgrade_bytes a3).2.2.1 h3,
+      (lowerB_upgrade_bytes a4).2.2.2.1 h4, (lowerB_upgrade_bytes a5).2.2.2.2.1 h5, (lowerB_upgrade_bytes a6).2.2.2.2.2.1 h6,
+      (lowerB_upgrade_bytes a7).2.2.2.2.2.2 h7]
+
+/-- a request that is not an upgrade request in the sense of `httpstream.IsUpgradeRequest` has no upgrade type in the
+    sense of the reverse proxy either: the non-upgrade path never re-adds `Connection: Upgrade` -/
+theorem upgradeType_nil_of_not_upgrade (h : Hdr) (hu : isUpgradeRequest h = false) :
+    headerValuesContainsToken (h.values kConnection) kUpgrade = false := by
+  unfold isUpgradeRequest at hu
+  unfold headerValuesContainsToken
+  rw [List.any_eq_false] at hu ⊢
+  intro v hv
+  have hv' := hu v hv
+  intro hc
+  apply hv'
+  rw [List.any_eq_true] at hc
+  obtain ⟨part, hp, ht⟩ := hc
+  have h1 : trimOWS part <:+: v := List.IsInfix.trans (trimOWS_infix part) (splitOn_mem_infix 44 v part hp)
+  have h2 : lowerStr (trimOWS part) <:+: lowerStr v := by
+    unfold lowerStr; exact List.IsInfix.map _ h1
+  rw [tokenEqual_upgrade _ ht] at h2
+  exact containsSub_of_infix _ _ h2
+
 end KG.Lemmas.Forward
